@@ -373,9 +373,10 @@ func (w *world) inflatedInput(s *uSpec, class, s6 string) variant {
 			fee := chainkit.UtxoFeeUinToA(claimed)
 			dests := copyDests(s.dests)
 			dests[0].(*types.AccountDestEntry).Amount = new(big.Int).Sub(claimed, fee)
-			return w.buildUin(s, dests, &signOpts{inAmounts: in})
+			return w.buildUin(s, dests, &signOpts{real: true, inAmounts: in})
 		}
-		return w.buildUin(s, bumpDest(s.dests, pay, d), &signOpts{inAmounts: in})
+		// made with the repository's own constructor and signer: the only lie is UTXOSourceEntry.Amount
+		return w.buildUin(s, bumpDest(s.dests, pay, d), &signOpts{real: true, inAmounts: in})
 	}}
 }
 
@@ -695,6 +696,7 @@ func runTamper(c *core.Ctx) {
 	var classes []string
 	var controls []*types.UTXOTransaction
 	tampered, ctlOK := 0, 0
+	realOK := false
 	for _, v := range variants {
 		tx, err := v.build()
 		if err != nil {
@@ -709,6 +711,14 @@ func runTamper(c *core.Ctx) {
 		}
 		classes = append(classes, v.class)
 		if v.control {
+			if strings.HasPrefix(v.class, "control-real") {
+				realOK = accepted
+			} else if realOK && !accepted {
+				// every tampered variant is made with the check's copy of the signer: if the tree no longer
+				// accepts what the copy produces, their rejection would mean nothing
+				c.Inconclusive("the check's copy of the RingCT signer (" + v.class + ") is rejected while the repository's signer is accepted: the signing format of the tree changed")
+				return
+			}
 			c.Count("controls", 1)
 			if !accepted {
 				c.Count("controls_rejected_block", 1)
